@@ -42,6 +42,7 @@ Record iface := mk_iface {
   istate : I -> Z;               (* IkeSa.state *)
   set_state : I -> Z -> I;       (* self.state = ... done by the shell (DELETED on errors / give-up) *)
   has_keys : I -> bool;          (* self.peer_crypto is not None *)
+  ipeer_spi : I -> Z;            (* self.peer_spi (set by the negotiation handlers) *)
   handle_request : I -> pmsg B -> I * hout B;
   handle_response : I -> pmsg B -> I * rout B;
   handle_trigger : I -> EV -> I * option (Z * B);   (* after the admission test: (new inner, request to send) *)
@@ -55,6 +56,7 @@ Section Shell.
   Notation I := (I P). Notation B := (B P). Notation EV := (EV P).
   Notation dgram := (dgram B). Notation pmsg := (pmsg B).
   Notation istate := (istate P). Notation set_state := (set_state P). Notation has_keys := (has_keys P).
+  Notation ipeer_spi := (ipeer_spi P).
   Notation handle_request := (handle_request P). Notation handle_response := (handle_response P).
   Notation handle_trigger := (handle_trigger P). Notation gen_dpd := (gen_dpd P).
   Notation gen_delete_ike := (gen_delete_ike P). Notation gen_rekey_ike := (gen_rekey_ike P).
@@ -64,7 +66,7 @@ Section Shell.
   Record sa := mk_sa {
     inner : I;
     is_init : bool;                       (* self.is_initiator *)
-    my_spi : Z; peer_spi : Z;
+    my_spi : Z;
     my_id : Z; peer_id : Z;
     last_resp : option dgram;             (* last_sent_response_data *)
     req_data : option dgram;              (* request_data: bytes of the outstanding request *)
@@ -74,11 +76,12 @@ Section Shell.
     dpd_cfg : Z;                          (* configuration.dpd *)
     pending : list EV }.
 
+  Definition peer_spi (s : sa) : Z := ipeer_spi (inner s).
   Definition spi_i (s : sa) : Z := if is_init s then my_spi s else peer_spi s.
   Definition spi_r (s : sa) : Z := if is_init s then peer_spi s else my_spi s.
 
   Definition with_inner (s : sa) (i : I) : sa :=
-    mk_sa i (is_init s) (my_spi s) (peer_spi s) (my_id s) (peer_id s) (last_resp s) (req_data s) (rt_at s) (rt_n s)
+    mk_sa i (is_init s) (my_spi s) (my_id s) (peer_id s) (last_resp s) (req_data s) (rt_at s) (rt_n s)
           (dpd_at s) (rek_at s) (del_at s) (dpd_cfg s) (pending s).
   Definition with_state (s : sa) (st : Z) : sa := with_inner s (set_state (inner s) st).
   Definition state (s : sa) : Z := istate (inner s).
@@ -91,17 +94,17 @@ Section Shell.
 
   (** _send_request *)
   Definition send_request (s : sa) (now : Z) (d : dgram) : sa * dgram :=
-    (mk_sa (inner s) (is_init s) (my_spi s) (peer_spi s) (my_id s) (peer_id s) (last_resp s) (Some d)
+    (mk_sa (inner s) (is_init s) (my_spi s) (my_id s) (peer_id s) (last_resp s) (Some d)
            (now + RETRANSMISSION_DELAY) 1 (dpd_at s) (rek_at s) (del_at s) (dpd_cfg s) (pending s), d).
 
   Definition set_my_id (s : sa) (z : Z) : sa :=
-    mk_sa (inner s) (is_init s) (my_spi s) (peer_spi s) z (peer_id s) (last_resp s) (req_data s) (rt_at s) (rt_n s)
+    mk_sa (inner s) (is_init s) (my_spi s) z (peer_id s) (last_resp s) (req_data s) (rt_at s) (rt_n s)
           (dpd_at s) (rek_at s) (del_at s) (dpd_cfg s) (pending s).
   Definition set_pending (s : sa) (p : list EV) : sa :=
-    mk_sa (inner s) (is_init s) (my_spi s) (peer_spi s) (my_id s) (peer_id s) (last_resp s) (req_data s) (rt_at s)
+    mk_sa (inner s) (is_init s) (my_spi s) (my_id s) (peer_id s) (last_resp s) (req_data s) (rt_at s)
           (rt_n s) (dpd_at s) (rek_at s) (del_at s) (dpd_cfg s) p.
   Definition set_dpd_at (s : sa) (z : Z) : sa :=
-    mk_sa (inner s) (is_init s) (my_spi s) (peer_spi s) (my_id s) (peer_id s) (last_resp s) (req_data s) (rt_at s)
+    mk_sa (inner s) (is_init s) (my_spi s) (my_id s) (peer_id s) (last_resp s) (req_data s) (rt_at s)
           (rt_n s) z (rek_at s) (del_at s) (dpd_cfg s) (pending s).
 
   (** _process_request *)
@@ -118,7 +121,7 @@ Section Shell.
                          | HErr b => (with_state s1 ST_DELETED, b)
                          end in
       let d := mk_dgram (stamp_response s2 (h_exch (p_hdr m))) body in
-      (mk_sa (inner s2) (is_init s2) (my_spi s2) (peer_spi s2) (my_id s2) (peer_id s2 + 1) (Some d) (req_data s2)
+      (mk_sa (inner s2) (is_init s2) (my_spi s2) (my_id s2) (peer_id s2 + 1) (Some d) (req_data s2)
              (rt_at s2) (rt_n s2) (dpd_at s2) (rek_at s2) (del_at s2) (dpd_cfg s2) (pending s2), Some d).
 
   (** process_acquire / process_expire: admission, queueing, then the trigger-specific part. *)
@@ -190,7 +193,7 @@ Section Shell.
         if rt_giveup (rt_n s) then (with_state s ST_DELETED, None)
         else
           let n := rt_n s + 1 in
-          (mk_sa (inner s) (is_init s) (my_spi s) (peer_spi s) (my_id s) (peer_id s) (last_resp s) (req_data s)
+          (mk_sa (inner s) (is_init s) (my_spi s) (my_id s) (peer_id s) (last_resp s) (req_data s)
                  (rt_next_at (rt_at s) n) n (dpd_at s) (rek_at s) (del_at s) (dpd_cfg s) (pending s), req_data s)
       else (s, None)
     else (s, None).
